@@ -28,7 +28,8 @@ ASSERTS = [
     ("to_bits", "{i}.to_bits()"), ("to_bits_w", "{i}.to_bits({w})"),
     ("assert_range_cc", "{i}.assert_range({K}, {K})"), ("assert_range_ss", "{i}.assert_range({i}, {i})"),
     ("lincombbool", "LinCombBool({i})"), ("lincombbool_sum", "LinCombBool({b} + {b})"),
-    ("bool_and_int", "{b} & {i}"), ("bool_eq_int", "{b} == {i}"),
+    ("bool_and_int", "{b} & {i}"), ("bool_eq_int", "{b} == {i}"), ("bool_xor_int", "{b} ^ {i}"), ("bool_or_int", "{b} | {i}"),
+    ("int_and_bool", "{i} & {b}"), ("bool_lt_int", "{b} < {i}"), ("bool_assert_eq_int", "{b}.assert_eq({i})"),
     ("bassert_eq", "{b}.assert_eq({b})"), ("bassert_ne", "{b}.assert_ne({b})"), ("bassert_eq_c", "{b}.assert_eq({B})"),
     ("bassert_lt", "{b}.assert_lt({b})"), ("bassert_ge", "{b}.assert_ge({b})"),
     ("bassert_zero", "{b}.assert_zero()"), ("bassert_nonzero", "{b}.assert_nonzero()"),
@@ -89,7 +90,7 @@ def make_case(tid, tmpl, bl, rnd):
     ins, cs = [], []
     if "w" in sl:
         # the width argument decides the boundary: aim operands at 2^w and at 2^bitlength, both sides
-        w = rnd.choice([1, 2, 3, 4, 5, 6])
+        w = rnd.choice([0, 1, 2, 3, 4, 5, 6])
         ints = [0, 1, -1, (1 << w) - 1, 1 << w, (1 << w) + 1, (1 << bl) - 1, 1 << bl, (1 << bl) + 1,
                 rnd.randint(0, 1 << max(w, bl)), rnd.randint(0, 1 << max(w, bl))]
         sl = ["W" if s == "w" else s for s in sl]
